@@ -741,6 +741,7 @@ theorem step_cb (c c' : Config K V) (t : Nat) (hstep : c.step t = some c') (hinv
     parked inside an Update's callback -/
 theorem callback_exactly_once (P : Params K) (tree : Tree K V) (progs : List (List (COp K V)))
     (ht : TreeOk none tree) (ho : tree.order = P.order) (hp : PadOk P) (hd : Disciplined progs)
+    (hdel : 4 ≤ tree.order ∨ NoDelete progs)
     (c : Config K V) (hr : Reachable (Config.init P tree progs) c) :
     ∀ t th, c.threads[t]? = some th → cbCount c t = updReturned c t + inCallback th := by
   have key : ∀ j b, c.threads[j]? = some b → CbOk c j b := by
@@ -753,7 +754,7 @@ theorem callback_exactly_once (P : Params K) (tree : Tree K V) (progs : List (Li
       subst e
       exact ⟨rfl, rfl⟩
     | @step c1 c2 t hr1 hs ih =>
-      exact step_cb c1 c2 t hs (reachable_cinv P tree progs ht ho hp hd c1 hr1) ih
+      exact step_cb c1 c2 t hs (reachable_cinv P tree progs ht ho hp hd hdel c1 hr1) ih
   intro t th hth
   rw [cbCount_eq, updReturned_eq]
   exact (key t th hth).cnt
